@@ -7,6 +7,7 @@ package centrifuge
 // about node state ("routing entry", "no trace"), the hub tables of the real node.
 
 import (
+	"encoding/json"
 	"errors"
 	"fmt"
 	"sort"
@@ -14,6 +15,7 @@ import (
 	"time"
 
 	"github.com/centrifugal/protocol"
+	fdelta "github.com/shadowspore/fossil-delta"
 	dto "github.com/prometheus/client_model/go"
 )
 
@@ -167,7 +169,9 @@ func (w *w1World) checkSettled() {
 				}
 			}
 			mark := len(w.pubs)
+			w.markerPhase = true
 			w.publish(ch)
+			w.markerPhase = false
 			rec := w.pubs[mark]
 			s.Sleep(300 * time.Millisecond)
 			for _, cl := range w.clients {
@@ -366,6 +370,7 @@ type w1Instance struct {
 	startAt    time.Duration
 	endKind    string
 	overlap    bool // started by a push:sub that arrived while a subscription was active
+	tf, delta  bool  // client tags filter used / delta negotiated
 	originSeq  int64 // when the request that started it was issued (command sent / push observed)
 }
 
@@ -445,6 +450,8 @@ func (w *w1World) checkClientLog(cl *w1SimClient) {
 		in := &w1Instance{cl: cl, ch: ch, startSeq: f.Seq, reply: f, serverSide: server, startAt: f.At, originSeq: f.Seq}
 		if c := cmdByID[f.ReplyID]; c != nil && f.ReplyID != 0 {
 			in.originSeq = c.Seq
+			in.tf = c.Tf
+			in.delta = c.Delta && f.Raw != nil && f.Raw.Subscribe != nil && f.Raw.Subscribe.Delta
 		}
 		active[ch] = in
 		instances = append(instances, in)
@@ -583,6 +590,12 @@ func (w *w1World) checkClientLog(cl *w1SimClient) {
 	if len(instances) > 0 {
 		s.Probe("nontrivial:C10")
 	}
+	// ---- C16 / C14
+	for _, in := range instances {
+		if chHas(in.ch, 'f') || chHas(in.ch, 'd') {
+			w.checkFilterAndDelta(in)
+		}
+	}
 	// ---- C01
 	for _, in := range instances {
 		if !chPositioned(in.ch) {
@@ -634,7 +647,14 @@ func (w *w1World) checkPositioned(in *w1Instance) {
 			s.Violate("C01", "offset-not-increasing", "duplicate or reordered offset"+w.rnq(), "client %d %s: received offset %d after %d", in.cl.idx, in.ch, p.Offset, last)
 			continue
 		}
-		if p.Offset != last+1 {
+		filteredGap := true
+		for o := last + 1; o < p.Offset; o++ {
+			t := w.truth(in.ch, o, epoch)
+			if t == nil || !w.filteredFor(in, t) {
+				filteredGap = false
+			}
+		}
+		if p.Offset != last+1 && !filteredGap {
 			s.Violate("C01", "gap", "gap in delivered offsets"+w.rnq(), "client %d %s: received offset %d after %d (start %d, recovered=%v) without an insufficient-state end", in.cl.idx, in.ch, p.Offset, last, startOff, r.Recovered)
 		}
 		if t := w.truth(in.ch, p.Offset, epoch); t != nil && !p.Delta && t.Data != p.Data {
@@ -644,6 +664,95 @@ func (w *w1World) checkPositioned(in *w1Instance) {
 	}
 	if len(in.pubs) > 0 {
 		s.Probe("c01_pubs_delivered")
+	}
+}
+
+// filteredFor reports whether the subscription's tags filters withhold a publication.
+func (w *w1World) filteredFor(in *w1Instance, t *w1PubRec) bool {
+	// the server tags filter comes from SubscribeOptions (OnSubscribe reply or
+	// ConnectReply.Subscriptions); the node-level Subscribe API has no option for it, so
+	// subscriptions started by a subscribe push carry none
+	viaPush := in.reply != nil && in.reply.Kind == "push:sub"
+	if chHas(in.ch, 'f') && !viaPush && t.Tags["s"] != "1" {
+		return true
+	}
+	if in.tf && t.Tags["c"] != "1" {
+		return true
+	}
+	return false
+}
+
+// checkFilterAndDelta: C16 (no delivery of a publication excluded by either filter, for
+// subscriptions without delta) and C14 (applying each delivered delta to the payload the
+// client holds yields the published payload) for one subscription instance.
+func (w *w1World) checkFilterAndDelta(in *w1Instance) {
+	s := w.s
+	var base []byte
+	haveBase := false
+	for _, p := range in.pubs {
+		data := []byte(p.Data)
+		if in.delta && in.cl.proto == ProtocolTypeJSON {
+			// with JSON + fossil every payload travels as a JSON string
+			var str string
+			if err := json.Unmarshal(data, &str); err != nil {
+				s.Violate("C14", "delta-framing", "delta subscription payload is not a JSON string", "client %d %s offset %d: payload %q", in.cl.idx, in.ch, p.Offset, p.Data)
+				continue
+			}
+			data = []byte(str)
+		}
+		var truth *w1PubRec
+		if p.Offset > 0 && in.reply != nil {
+			truth = w.truth(in.ch, p.Offset, in.reply.Epoch)
+		}
+		if in.delta {
+			s.Probe("nontrivial:C14")
+			var full []byte
+			if p.Delta {
+				s.Probe("c14_real_delta")
+				if !haveBase {
+					s.Violate("C14", "delta-without-base", "delta delivered although the client holds no base", "client %d %s offset %d: first publication of the subscription is a delta", in.cl.idx, in.ch, p.Offset)
+					continue
+				}
+				out, err := fdelta.Apply(base, data)
+				if err != nil {
+					s.Violate("C14", "delta-apply-failed", "delta does not apply to the held payload", "client %d %s offset %d: %v", in.cl.idx, in.ch, p.Offset, err)
+					continue
+				}
+				full = out
+			} else {
+				full = data
+			}
+			if truth != nil && string(full) != truth.Data {
+				s.Violate("C14", "delta-wrong-result", "reconstructed payload differs from the published one", "client %d %s offset %d: reconstructed %q, published %q (delta=%v)", in.cl.idx, in.ch, p.Offset, full, truth.Data, p.Delta)
+			}
+			base, haveBase = full, true
+			continue
+		}
+		if p.Delta {
+			s.Violate("C14", "delta-not-negotiated", "delta delivered to a subscription that did not negotiate it", "client %d %s offset %d", in.cl.idx, in.ch, p.Offset)
+		}
+		// C16: the publication must pass both filters
+		if truth == nil {
+			for _, t := range w.pubs {
+				if t.Ch == in.ch && t.Data == p.Data {
+					truth = t
+				}
+			}
+		}
+		if truth != nil && chHas(in.ch, 'f') {
+			s.Probe("nontrivial:C16")
+			if w.filteredFor(in, truth) {
+				path := "live broadcast"
+				if in.reply != nil {
+					for _, rp := range in.reply.Pubs {
+						if rp.Offset == p.Offset && rp.Data == p.Data {
+							path = "recovery"
+						}
+					}
+				}
+				s.Violate("C16", "filtered-delivered", "publication excluded by a tags filter was delivered ("+path+")", "client %d %s offset %d tags %v delivered although filters (server s==1, client filter used=%v) exclude it", in.cl.idx, in.ch, p.Offset, truth.Tags, in.tf)
+			}
+		}
 	}
 }
 
